@@ -1,55 +1,15 @@
 (* C16/Corr.v — executable model used by the correspondence run: the object layer of
    Verif.C16.Model with the leaves REGENERATED from model.py on this run, instantiated at
-   exact rationals (QInst; exp, sqrt, ln are 1e-30 approximations), compared INSIDE Coq with
-   what the implementation returned. *)
+   exact rationals (QInst; sqrt, ln are 1e-30 approximations, exp = CorrCore.qexp3), compared
+   INSIDE Coq with what the implementation returned (pcase / run16 / cmp16: Verif.C16.CorrCore).
+   One case = one element of x, whatever the layout of the array it was taken from. *)
 From Coq Require Import QArith Qabs ZArith String List Bool.
 From Verif.Sem Require Import Field Val QInst Corr.
-From Verif.C16 Require Import SemExt Model.
+From Verif.C16 Require Import SemExt Model CorrCore.
 From Run Require Import GenModel Leaf.
 Import ListNotations.
 Open Scope string_scope.
 
-Notation O := (QOps 0 0).
-(* what: "call" (model(x, **params)), "fwhm" (model.fwhm(params)), "construct",
-   "names" / "guess" / "bounds": the keys of model.param_names / model.guess(data) /
-   model.param_bounds are handed over as the keys of pparams *)
-Record pcase := mkp { pwhat : string; pmodel : model; pparams : list (string * inp); px : inp;
-                      pout : outcome; ptol : Q; pfloor : Q }.
-
-Definition run (c : pcase) : val O :=
-  let ps := map (fun kv => (fst kv, qv 0 0 (snd kv))) (pparams c) in
-  if String.eqb (pwhat c) "call" then
-    (if constructible (pmodel c) then call O (@gen_leaf O _) (pmodel c) (qv 0 0 (px c)) ps
-     else VErr O "ValueError")
-  else if String.eqb (pwhat c) "fwhm" then
-    match pmodel c with
-    | Leaf k p => gen_fwhm O k (self_of O k p) (VDict O ps)
-    | Comp _ _ _ => VErr O "NotImplementedError"
-    end
-  else if String.eqb (pwhat c) "names" || String.eqb (pwhat c) "guess" then
-    (if negb (constructible (pmodel c)) then VErr O "ValueError"
-     else if set_eqb (map fst (pparams c)) (pnames (pmodel c)) then VNone O else VErr O "keys-differ")
-  else if String.eqb (pwhat c) "bounds" then
-    (if negb (constructible (pmodel c)) then VErr O "ValueError"
-     else if set_eqb (map fst (pparams c)) (pbnames (pmodel c)) then VNone O else VErr O "keys-differ")
-  else if String.eqb (pwhat c) "construct" then
-    (if constructible (pmodel c) then VNone O else VErr O "ValueError")
-  else VErr O "unknown-case".
-
-(* "" = agreement.  |impl - model| <= tol |model| + floor  (floor in the unit of the result) *)
-Definition cmp16 (m : val O) (o : outcome) (tol floor : Q) : string :=
-  match m, o with
-  | VVar _ (ENum _ x _) u d, OutVal v sc dm dt =>
-      if negb (deqb (ud _ u) dm) then "unit-dimension"
-      else if negb (rel_close (us _ u) sc (1 # 1000000000000)) then "unit-multiplier"
-      else if negb (dtype_eqb d dt) then "dtype:model=" ++ dtype_name d ++ ",impl=" ++ dtype_name dt
-      else if Qle_bool (Qabs (v * sc - x * us _ u)) (tol * Qabs (x * us _ u) + floor * sc) then "" else "value"
-  | VErr _ e, OutErr cls => if String.eqb e cls then "" else "error-class:model=" ++ e ++ ",impl=" ++ cls
-  | VNone _, OutErr cls => if String.eqb cls "ok" then "" else "impl-raises-" ++ cls
-  | VErr _ e, _ => "model-raises-" ++ e
-  | _, OutErr cls => "impl-raises-" ++ cls
-  | _, OutNaN _ _ _ => "impl-NaN"
-  | _, OutInf _ _ _ => "impl-infinite"
-  | _, _ => "shape"
-  end.
+Definition run (c : pcase) : val O16 :=
+  run16 (@gen_leaf O16 (QXc 0 0)) (@gen_fwhm O16 (QXc 0 0)) c.
 Definition check (c : pcase) : string := cmp16 (run c) (pout c) (ptol c) (pfloor c).
